@@ -1039,4 +1039,12 @@ def check_C15(run):
     settle_break(run)
 
 
-CHECKS = {"C15": check_C15, "C11": check_C11, "C01": check_C01, "C04": check_C04, "C06": check_C06, "C07": check_C07, "C12": check_C12, "C13": check_C13, "C14": check_C14, "C10": check_C10, "C16": check_C16, "C17": check_C17, "C18": check_C18, "C09": check_C09, "C05": check_C05, "C03": check_C03, "C02": check_C02, "C19": check_C19}
+def check_C08(run):
+    lexer_check(run, "C08", O.c08, 3000, 80000,
+                extra_inputs=lambda rng, run: gen.numeric_stream(rng.fork("num"), tier_n(run, 30000, 600000)))
+    run.assumptions += ["proved (model): integer readings, round-to-nearest-even against Flocq's rounding operator, the float reading of every decimal/exponent spelling; axioms: the standard library's real-number axioms",
+                        "tested on every numeric token (oracle: exact integer parsing, Python float() as correctly rounded reference): notation disambiguation in lex_numeric_literal, macro-expression contexts, extent of malformed literals",
+                        "lexical 7.0.2 parse_partial is modelled (Model/Numeric.v) and compared with the crate on every input; a difference on a float payload is a C08 violation of the implementation because the model side is proved"]
+
+
+CHECKS = {"C08": check_C08, "C15": check_C15, "C11": check_C11, "C01": check_C01, "C04": check_C04, "C06": check_C06, "C07": check_C07, "C12": check_C12, "C13": check_C13, "C14": check_C14, "C10": check_C10, "C16": check_C16, "C17": check_C17, "C18": check_C18, "C09": check_C09, "C05": check_C05, "C03": check_C03, "C02": check_C02, "C19": check_C19}
